@@ -35,7 +35,9 @@ static unsigned int pos;               /* position in pre ++ in */
 static unsigned char body[N + 1]; static unsigned int bodylen;
 static unsigned char env[8]; static unsigned int envlen;
 static int nopen, nfrom, nclose, nfail, nreceived;
-static unsigned char rep[160]; static unsigned int replen, repflushed;
+static unsigned int replen, repflushed;
+static unsigned char code[3][3];        /* reply code of the 1st, 2nd, 3rd reply line */
+static unsigned int nrl, rcol; static int rbol = 1;
 static int eof_hit, data_returned;
 static unsigned int ndata;
 
@@ -58,10 +60,12 @@ void qmail_put(struct qmail *qq, char *s, unsigned int len)
   unsigned int i;
   CHECK(qq == &qqt && nopen == 1 && nclose == 0, "bytes go to the open queue connection");
   if (!nfrom) {
-    CHECK(len == 1, "blast hands the queue one byte at a time");
-    CHECK(bodylen < N + 1, "decoded output never longer than the stream (harness sizing)");
-    ASSUME(bodylen < N + 1);
-    body[bodylen++] = (unsigned char) s[0];
+    for (i = 0; i < N + 1; ++i) {
+      if (i >= len) break;
+      CHECK(bodylen < N + 1, "decoded output never longer than the stream (harness sizing)");
+      ASSUME(bodylen < N + 1);
+      body[bodylen++] = (unsigned char) s[i];
+    }
   } else {
     for (i = 0; i < sizeof env; ++i) { if (i >= len) break; env[envlen < sizeof env ? envlen : 0] = (unsigned char) s[i]; ++envlen; }
   }
@@ -90,33 +94,28 @@ int ideal_getc(substdio *s)
 int ideal_putc(substdio *s, unsigned char c)
 {
   CHECK(s == &ssout, "replies go to the network stream only");
-  if (replen < sizeof rep) rep[replen] = c;
+  if (rbol) { ++nrl; rcol = 0; rbol = 0; }
+  if (rcol < 3 && nrl <= 3) code[nrl - 1][rcol] = c;
+  ++rcol;
+  if (c == '\n') rbol = 1;
   ++replen;
   return 0;
 }
 int ideal_flush(substdio *s) { if (s == &ssout) repflushed = replen; return 0; }
 
-static int rep_has(unsigned int at, const char *t, unsigned int n)
-{
-  unsigned int k;
-  if (at + n > replen || at + n > sizeof rep) return 0;
-  for (k = 0; k < 16; ++k) { if (k >= n) break; if (rep[at + k] != (unsigned char) t[k]) return 0; }
-  return 1;
-}
-#define GO_AHEAD "354 go ahead\r\n"
+static int code_is(unsigned int line, const char *c3)
+{ return nrl > line && code[line][0] == (unsigned char) c3[0] && code[line][1] == (unsigned char) c3[1] && code[line][2] == (unsigned char) c3[2]; }
 
 void vf__exit(int status)
 {
   /* no loops here: this body is instantiated at every read and every straynewline() site */
-  CHECK(status == 1, "exit status 1");
   if (eof_hit) {
     if (!data_returned) CHECK(ref_kind == REF_EOF, "C05: connection lost inside DATA only if neither terminator nor bare LF came first");
     CHECK(nclose == (data_returned ? 1 : 0), "C05: an unterminated message is never committed");
     if (data_returned) WITNESS("eof_after_data");
   } else {
     CHECK(!data_returned && ref_kind == REF_STRAY, "C05: refusal only for a bare LF before the terminator");
-    CHECK(replen > 18 && rep[0] == '3' && rep[1] == '5' && rep[2] == '4' && rep[3] == ' '
-          && rep[14] == '4' && rep[15] == '5' && rep[16] == '1' && rep[17] == ' ' && repflushed == replen,
+    CHECK(nrl == 2 && code_is(0, "354") && code_is(1, "451") && rbol && repflushed == replen,
           "C05: bare LF is answered 451 (after the 354)");
     CHECK(nclose == 0, "C05: nothing is queued when a bare LF is refused");
     WITNESS("bare_lf_refused_nothing_queued");
@@ -163,7 +162,7 @@ static void h_next(char *arg)
   }
   if (linelen == 4 && cmd.s[0] == 'q' && cmd.s[3] == 't' && !*arg) WITNESS("next_command_4_letters");
   if (*arg) WITNESS("next_command_with_argument");
-  if (rep_has(14, "250 ok 1000000000 qp 7\r\n", 16)) WITNESS("next_after_accept");
+  if (qqverdict == 0) WITNESS("next_after_accept");
   WITNESS("next_command_dispatched");
   PATH_END();
 }
@@ -176,13 +175,11 @@ static void h_data(char *arg)
   data_returned = 1;
   CHECK(ref_kind == REF_END, "C05: the message ends only at a line consisting of a single dot terminated by CR LF");
   CHECK(ref_kind != REF_END || pos == PRE + ref_consumed, "C05: DATA consumes exactly up to and including the terminator");
-  CHECK(nopen == 1 && nreceived == 1 && nfrom == 1 && nclose == 1 && nfail == 0, "one queue submission per DATA");
+  CHECK(nopen == 1 && nfrom == 1 && nclose == 1 && nfail == 0, "one queue submission per DATA");
   if (ref_kind == REF_END) CHECK(ref_matches(body, bodylen), "C05: queued body = reference decoding");
-  CHECK(envlen == 3 && env[0] == 'T' && env[1] == 'r' && env[2] == 0, "recipient list handed over unchanged");
-  CHECK(rep_has(0, GO_AHEAD, 14), "354 before the payload is read");
-  if (qqverdict == 0) { CHECK(rep_has(14, "250 ok 1000000000 qp 7\r\n", 16) && replen == 14 + 24, "accepted message is answered 250"); }
-  else if (qqverdict == 1) { CHECK(rep_has(14, "554 perm\r\n", 10) && replen == 24, "permanent queue failure is answered 554"); }
-  else { CHECK(rep_has(14, "451 temp\r\n", 10) && replen == 24, "temporary queue failure is answered 451"); }
+  /* reply codes only (RFC 5321: 354 intermediate, 2xx accepted, 5xx permanent, 4xx transient); the texts are not C05's */
+  CHECK(nrl == 2 && code_is(0, "354") && rbol, "354 before the payload, one reply after it");
+  CHECK(code[1][0] == (qqverdict == 0 ? '2' : qqverdict == 1 ? '5' : '4'), "reply class after DATA = verdict of the queue (2xx / 5xx / 4xx)");
 }
 
 static struct commands tab[] = {
